@@ -13,6 +13,8 @@ C02_CAP = 20000
 
 
 def handle(task):
+    if task["mode"] == "c01sub":
+        return handle_subsets(task)
     defn = dsl.to_tuple(task["defn"])
     k = task.get("k", 2)
     mode = task["mode"]
@@ -72,6 +74,40 @@ def handle(task):
             "transitions": st.transitions, "types": types}
 
 
+def handle_subsets(task):
+    """C01 on incomplete evidence: every listed subset of J_k(D) is learned
+    from on its own; each of its jobs must be accepted"""
+    from .. import present, impl_pv
+    defn = dsl.to_tuple(task["defn"])
+    st = semantics.Stats()
+    jobs = semantics.executions(defn, task.get("k", 2), st)
+    bad = []
+    n = 0
+    for sub in task["subsets"]:
+        n += 1
+        sel = [jobs[i] for i in sub]
+        pv = present.present(sel, {})
+        res = impl_pv.run_pipeline(pv, "x", None)
+        prob = None
+        if res["status"] != "ok":
+            prob = ["exc", res["exc"]]
+        else:
+            ast, err = pvcommon.parse_output(res["text"])
+            if ast is None:
+                prob = ["unparseable", err]
+            else:
+                rej = [i for i, j in zip(sub, sel)
+                       if not semantics.accepts(ast, j, st)]
+                if rej:
+                    prob = ["reject", [job_str(jobs[i]) for i in rej[:3]],
+                            len(rej)]
+        if prob:
+            bad.append({"subset": list(sub), "problem": prob,
+                        "text": res.get("text")})
+    return {"subsets": True, "n": n, "bad": bad, "jobs": len(jobs),
+            "states": st.states, "transitions": st.transitions}
+
+
 def job_str(job):
     return " ".join(f"{i}:{t}<{','.join(map(str, ps))}" for i, t, ps in job)
 
@@ -109,6 +145,7 @@ def collect_generic(pid, tier, tasks, results, bounds, rule, level,
     samples = []
     capped = []
     skipped_unparseable = 0
+    subset_runs = 0
     texts = set()
     for t, r in zip(tasks, results):
         defn = dsl.to_tuple(t["defn"])
@@ -121,6 +158,24 @@ def collect_generic(pid, tier, tasks, results, bounds, rule, level,
             continue
         states += r["states"]
         trans += r["transitions"]
+        if r.get("subsets"):
+            evals += r["n"]
+            traces += r["n"]
+            subset_runs += r["n"]
+            for b in r["bad"]:
+                kd = kind_of(b["problem"])
+                outcomes["subset_" + kd] = outcomes.get("subset_" + kd, 0) + 1
+                viol.append({
+                    "key": input_key([t["defn"], kd, "subset", b["subset"]]),
+                    "what": f"{t.get('name', 'F')} {dsl.show(defn)} learned "
+                            f"from the job subset {b['subset']} of "
+                            f"{r['jobs']}: {kd}: {str(b['problem'][1:])[:160]}",
+                    "input": {"name": t.get("name"), "defn": t["defn"],
+                              "k": t.get("k", 2), "mode": "c01sub",
+                              "subsets": [b["subset"]]},
+                    "observed": {"problem": b["problem"],
+                                 "text": b.get("text")}})
+            continue
         tags = dsl.constructs(defn)
         for tg in tags:
             construct_counts[tg] = construct_counts.get(tg, 0) + 1
@@ -173,12 +228,17 @@ def collect_generic(pid, tier, tasks, results, bounds, rule, level,
            "outcomes": outcomes, "distinct_emitted_texts": len(texts)}
     if pid == "C02":
         cov["skipped_unparseable"] = skipped_unparseable
+    if subset_runs:
+        cov["incomplete_evidence_runs"] = subset_runs
     return {"violations": viol, "coverage": cov, "harness_error": he,
             "assumptions": pvcommon.ASSUMPTIONS}
 
 
 def replay_generic(rec):
     i = rec["input"]
+    if i.get("mode") == "c01sub":
+        r = handle_subsets(i)
+        return bool(r["bad"]), repr([b["problem"] for b in r["bad"]])[:300]
     r = handle({"defn": i["defn"], "k": i.get("k", 2), "pres": i["pres"],
                 "mode": i["mode"], "pi": i.get("pi")})
     want = rec["observed"]["problem"][0] if isinstance(rec["observed"], dict) \
